@@ -51,3 +51,44 @@ def walk(co, path="m"):
             for x in walk(c, "%s.%d" % (path, i)):
                 yield x
         i += 1
+
+
+NONE = -1000000   # spec/LineTables.tla: None
+
+
+def raw_table(b):
+    """line-table bytes as ints; xdis's compat_str turns a Python 2 byte string into text when it happens to be
+    valid UTF-8 -- encoding it back gives the bytes that were in the file"""
+    if isinstance(b, (bytes, bytearray)):
+        return list(bytearray(b))
+    if isinstance(b, str):
+        return list(bytearray(b.encode("utf-8", "surrogateescape") if PY3 else b))
+    raise TypeError("line table expected, got %r" % type(b))
+
+
+def nn(x):
+    return NONE if x is None else int(x)
+
+
+def fmt_of(vt):
+    vt = tuple(vt[:2])
+    if vt < (1, 5):
+        return None
+    if vt < (3, 6):
+        return "lnotab_u"
+    if vt < (3, 8):
+        return "lnotab_s"
+    if vt < (3, 10):
+        return "lnotab_sc"
+    if vt == (3, 10):
+        return "lines310"
+    if vt < (3, 13):
+        return "loc311"
+    return "loc313"
+
+
+def queries(starts, clen):
+    q = set([0, 1, 2, 5, 6, 7, 8, 254, 255, 256, 257, 600, max(clen - 1, 0), clen, clen + 2])
+    for o, _ in starts:
+        q.update((max(o - 1, 0), o, o + 1))
+    return sorted(q)
